@@ -1,28 +1,1 @@
-import RgVerif.Audit
-import RgVerif.Driver.C01
-import RgVerif.Driver.C02
-import RgVerif.Driver.C03
-import RgVerif.Driver.C04
-import RgVerif.Driver.C05
-import RgVerif.Driver.C06
-import RgVerif.Driver.C07
-import RgVerif.Driver.C08
-import RgVerif.Driver.C09
-import RgVerif.Driver.C10
-import RgVerif.Driver.C11
-import RgVerif.Driver.C12
-import RgVerif.Driver.C13
-import RgVerif.Driver.C14
-import RgVerif.Driver.C15
-import RgVerif.Driver.C16
-import RgVerif.Driver.C17
-import RgVerif.Driver.C18
-import RgVerif.Driver.C19
-import RgVerif.Driver.Loop
-import RgVerif.Model.Interpolate
-import RgVerif.Model.Matcher
-import RgVerif.Model.Replace
 import RgVerif.Model.Sx
-import RgVerif.Model.Utf8
-import RgVerif.Props.C19
-import RgVerif.Spec.ReplaceAll
